@@ -44,6 +44,42 @@ def int_literal_cases():
     return out
 
 
+def float_cases(rng, n):
+    """Floating constants: every suffix and spelling form, and for each of float / double / long double constants that lie
+    just above and just below a rounding midpoint of the target format (closer than half an ulp of the next wider format, so
+    that parsing in a wider format first and rounding again gives the wrong neighbour)."""
+    from fractions import Fraction
+    out = []
+    for t in ['1.0', '1.', '.5', '1e5', '1E-5', '1.5e+3', '0x1p3', '0x.8p0', '0X1.8P1', '0x1p-1', '100.', '1e0', '0e0', '0.0', '0x0p0', '1.0e38', '1e-38', '1e-45', '1e38',
+              '3.4028234663852886e38', '3.4028235677973366e38', '1e308', '1e-308', '5e-324', '2e-324', '1e-4950', '1e4932', '1.18973149535723176502e4932', '0.1', '0.2', '0.3', '1.1']:
+        for suf in ('', 'f', 'F', 'l', 'L'):
+            out.append((t + suf, 'C11|float|%s|form' % (suf or 'none')))
+
+    def dec(fr):
+        # exact decimal expansion of a dyadic rational
+        num, den = fr.numerator, fr.denominator
+        ip = num // den
+        r = num % den
+        digs = []
+        while r:
+            r *= 10
+            digs.append(str(r // den))
+            r %= den
+        return '%d.%s' % (ip, ''.join(digs) or '0')
+    for _ in range(n):
+        suf, bits = rng.choice([('f', 24), ('', 53), ('L', 64)])
+        m = rng.randrange(1 << (bits - 1), 1 << bits)
+        e = rng.randrange(-12, 13)
+        mid = Fraction(2 * m + 1, 1 << bits) * Fraction(2) ** e       # midpoint between m and m+1 (scaled into [2^e, 2^(e+1)))
+        d = dec(mid)
+        above = d + '0' * rng.randrange(0, 12) + '1'
+        below = d[:-1] + str(int(d[-1]) - 1) + '9' * rng.randrange(8, 20) if d[-1] != '0' else d
+        exact = d
+        for (txt, how) in ((above, 'just-above-midpoint'), (below, 'just-below-midpoint'), (exact, 'exact-midpoint-%s' % ('even' if m % 2 == 0 else 'odd'))):
+            out.append((txt + suf, 'C11|float|%s|%s' % (suf or 'none', how)))
+    return out
+
+
 def threshold_cell(v):
     for k in (63, 32, 31, 16, 15, 8, 7):
         if v >= (1 << k):
@@ -262,6 +298,16 @@ def run(ctx):
         body.append('OUT(%d, g%d, sizeof g%d); { const %s a[] = %s; OUT(%d, a, sizeof a); } OUTV(%d, sizeof(%s));' % (i, i, i, el, text, i, i, text))
         exp += [(None, key + '|static', text), (None, key + '|auto', text), (None, key + '|sizeof', text)]
     progs.append(('#include "vrt.h"\n' + '\n'.join(glob) + '\nint main(void) {\n' + '\n'.join(body) + '\nreturn 0;\n}\n', exp))
+    body, exp = [], []
+    for i, (text, key) in enumerate(float_cases(rng, ctx.scale(150, 3000))):
+        body.append('{ typeof(%s) r = %s; OUT(%d, &r, sizeof r == 16 ? 10 : sizeof r); static typeof(%s) s = %s; OUT(%d, &s, sizeof s == 16 ? 10 : sizeof s); OUTV(%d, sizeof(%s)); }' %
+                    (text, text, i, text, text, i, i, text))
+        exp += [(None, key + '|auto', text), (None, key + '|static', text), (None, key + '|size', text)]
+        if len(body) >= 400:
+            progs.append(('#include "vrt.h"\nint main(void) {\n' + '\n'.join(body) + '\nreturn 0;\n}\n', exp))
+            body, exp = [], []
+    if body:
+        progs.append(('#include "vrt.h"\nint main(void) {\n' + '\n'.join(body) + '\nreturn 0;\n}\n', exp))
     # ---- (4) Unicode through the compiler
     pts = boundary_codepoints(rng, ctx.scale(1500, 0))
     if ctx.tier == 'thorough':
